@@ -121,6 +121,10 @@ fn guarded(n: int) -> int { 7 + (try { if n < 0 { return n + 1; } n } catch e { 
 fn label(n: int) -> str { "<" + (if n == 0 { return "zero"; } else { n.to_string() }) + ">" }
 fn nested(n: int) -> int { 1 + (2 * (3 + { if n > 0 { return n; } 4 })) }
 fn count() -> int { calls }
+fn risky(n: int) -> int { if n < 0 { throw("negative input"); } n * 2 }
+fn guarded2(n: int) -> int { try { return risky(n); } catch e { return 0 - 1; } }
+fn outer2(n: int) -> int { try { try { return risky(n) + 1; } catch e { return 999; } } catch e2 { return 99; } }
+fn in_loop(n: int) -> int { for i in 0..3 { try { return risky(n - i); } catch e { calls += 0; } } 0 - 7 }
 fn main() {}
 `
 	i := func(v int64) hs.WV { return hs.WV{V: hs.IntV(v)} }
@@ -138,6 +142,11 @@ fn main() {}
 		{"label", arg(0), hs.StrV("zero"), hs.TStr}, {"label", arg(4), hs.StrV("<4>"), hs.TStr},
 		{"nested", arg(9), hs.IntV(9), hs.TInt}, {"nested", arg(0), hs.IntV(15), hs.TInt},
 		{"count", nil, hs.IntV(3), hs.TInt}, {"tick", arg(5), hs.IntV(6), hs.TInt}, {"count", nil, hs.IntV(4), hs.TInt},
+		// a return whose VALUE throws inside a try: the handler around the return statement catches it
+		{"guarded2", arg(-5), hs.IntV(-1), hs.TInt}, {"guarded2", arg(4), hs.IntV(8), hs.TInt},
+		{"outer2", arg(-1), hs.IntV(999), hs.TInt}, {"outer2", arg(2), hs.IntV(5), hs.TInt},
+		{"in_loop", arg(-1), hs.IntV(-7), hs.TInt}, {"in_loop", arg(1), hs.IntV(2), hs.TInt},
+		{"count", nil, hs.IntV(4), hs.TInt}, {"guarded2", arg(-1), hs.IntV(-1), hs.TInt}, {"tick", arg(9), hs.IntV(10), hs.TInt},
 	}
 	c := Case{ProgCase: px.ProgCase{Modules: map[string]string{"main": prog}, Entry: "main", Limits: sb.DefaultLimits()}}
 	for _, cl := range calls {
